@@ -1,5 +1,6 @@
 import json
 claimed = {
+ 'C02': ('exploration', 'Seeded search over whole hierarchical/hybrid runs (schedules, -j, mutator subsets, non-monotone command models); after each run every proposal of every enabled mutator on the final in-memory input is re-enumerated with ddSMT\'s own mutators and judged by the command model under the reference rule.', '4 (C02)', 'whole-system deterministic simulation + exhaustive re-enumeration oracle on the final state'),
  'C09': ('exploration', 'Every individual check of sampled whole runs (scripted exit/stdout/stderr outcomes of command and cross-check command from a colliding alphabet x all comparison options x --unchecked) is compared with an independent statement of the documented rule; argv of every invocation is checked. Sampling of the option x outcome classes with a measured coverage table.', '4 (C09)', 'deterministic simulation with scripted command outcomes + reference-rule oracle per check'),
  'C01': ('exploration', 'Seeded search over whole simulated runs across input x command model x strategy x -j x output mode x comparison options x cross-check x completion order; the final output file is re-judged by the command model under an independent statement of the acceptance rule and matched against the set of candidate files actually read and accepted.', '4 (C01)', 'whole-system deterministic simulation + command-side log oracle'),
  'C05': ('exploration', 'Seeded search over interleavings of the real strategy loops (main thread, pool task-feeder thread, workers, command latencies, queue look-ahead, abort-flag visibility, line-level pre-emption); the chain oracle is evaluated over the recorded history of every run. Sampling, not enumeration.', '4 (C05)', 'whole-system deterministic simulation + history oracle (chain of adopted inputs)'),
